@@ -207,6 +207,19 @@ def m_ok_or(ex, st, callee, args, dest_ty):
     yield st, En("Result", z3.simplify(z3.If(v.disc == 1, z3.IntVal(0), z3.IntVal(1))), alts)
 
 
+def m_ok_or_else(ex, st, callee, args, dest_ty):
+    v, f = args
+    if "Some" in v.alts:
+        for st2 in ex.branch(st, v.disc == 1):
+            yield st2, ok(v.alts["Some"][0])
+    for st2 in ex.branch(st, v.disc != 1):
+        for o in call_fn_value(ex, st2, f, []):
+            if o.kind != "return":
+                yield o
+            else:
+                yield o.st, err(o.value)
+
+
 def m_map_err(ex, st, callee, args, dest_ty):
     v = args[0]
     alts = {}
@@ -762,6 +775,20 @@ def m_vec_push(ex, st, callee, args, dest_ty):
         yield st2, UNIT
 
 
+def m_vec_insert(ex, st, callee, args, dest_ty):
+    r = _base_ref(ex, st, args[0])
+    v = _vec_at(ex, st, r)
+    for st1, n in ex.enum_values(st, v.len, limit=len(v.items) + 2):
+        for st2 in ex.branch(st1, args[1].e > n):
+            yield Outcome("panic", st2, msg="insertion index (is %s) should be <= len (is %d)" % (args[1].e, n))
+        for st2 in ex.branch(st1, args[1].e <= n):
+            for st3, k in ex.enum_values(st2, args[1].e, limit=n + 2):
+                v2 = _vec_at(ex, st3, r)
+                items = tuple(v2.items[:k]) + (args[2],) + tuple(v2.items[k:n])
+                ex.write(st3, r.cell, r.projs, VecV(z3.IntVal(n + 1), items, v2.elem_ty))
+                yield st3, UNIT
+
+
 def m_vec_pop(ex, st, callee, args, dest_ty):
     r = _base_ref(ex, st, args[0])
     v = _vec_at(ex, st, r)
@@ -936,6 +963,7 @@ BASE_MODELS = [
     (R(r"^Option::<.*>::zip::<.*>$"), m_opt_zip),
     (R(r"^Result::<.*>::ok$"), m_result_ok),
     (R(r"^Option::<.*>::ok_or::<.*>$"), m_ok_or),
+    (R(r"^Option::<.*>::ok_or_else::<.*>$"), m_ok_or_else),
     (R(r"^(Option|Result)::<.*>::map::<.*>$"), m_opt_map),
     (R(r"^(Option|Result)::<.*>::map_or::<.*>$"), m_map_or),
     (R(r"^(Option|Result)::<.*>::or_else::<.*>$"), m_or_else),
@@ -970,6 +998,7 @@ BASE_MODELS = [
     (R(r"^Vec::<.*>::len$|^core::slice::<impl \[.*\]>::len$"), m_vec_len),
     (R(r"^Vec::<.*>::is_empty$|^core::slice::<impl \[.*\]>::is_empty$"), m_vec_is_empty),
     (R(r"^Vec::<.*>::push$"), m_vec_push),
+    (R(r"^Vec::<.*>::insert$"), m_vec_insert),
     (R(r"^Vec::<.*>::pop$"), m_vec_pop),
     (R(r"^<Vec<.*> as Index<usize>>::index$|^<\[.*\] as Index<usize>>::index$"), m_vec_index),
     (R(r"^<std::ops::Range<.*> as IntoIterator>::into_iter$"), m_range_into_iter),
